@@ -8,6 +8,10 @@ UNIT = dict(
     rules=[("R1",), ("R2",)],
     extra_params=["clk", "tr"],
     fns={
+        "ReconnectState::state": dict(file="state"),
+        "ReconnectState::attempts": dict(file="state"),
+        "ReconnectState::increment_attempts": dict(file="state"),
+        "ReconnectState::reset_attempts": dict(file="state"),
         "ReconnectState::encode_state": dict(file="state"),
         "ReconnectState::decode_state": dict(file="state"),
         "ReconnectState::set_state": dict(file="state", rules=[("addarg", ["store"], TR, 1)]),
@@ -29,10 +33,13 @@ UNIT = dict(
             ("addarg", ["poll", "mark_connected", "mark_disconnected", "mark_reconnecting", "call"], TR, None),
             ("sub", "panic-unreachable", r"panic!\(\"[^\"]*\"\);", "assert(false); return Poll::Pending;", 1, ),
             # domain restriction (DESIGN §6 C16): the attempt counter never reaches u32::MAX
-            ("inject", r"self\.attempt \+= 1;", "before", "assume(self.attempt < u32::MAX);"),
+            ("inject", r"self\.attempt \+= 1;", "before", "assume(self.attempt < u32::MAX);", "optional"),
+            ("sub", "R9-paths", r"crate::state::", "", -1),
             ("inject", r"let call_future = self\.inner\.call\(", "before",
              "proof { assert(tr.slept_since_done >= delay_spec(self.config.policy, self.attempt as usize)->0.nanos); }   // #waits_the_policys_delay_before_each_retry [C16]"),
-            ("loops", {0: "invariant self.wf(*tr), self.config == old(self).config, self.request == old(self).request,"}),
+            ("loops", {0: """invariant
+                self.wf(*tr),   // #invariant_kept_by_every_step_of_poll [C16]
+                self.config == old(self).config, self.request == old(self).request,"""}),
         ]),
     },
     derive_clone={"ReconnectState": "state"},
